@@ -453,7 +453,7 @@ impl Check for C18 {
                 }
                 let p = Program {
                     guid: "{c18}".into(),
-                    ops: vec![Op::Ext { prefix: PREFIX.into(), url: URI.into() }, Op::Cloud(prog::CloudSpec { guid: "{c}".into(), proto, n: *n, seed: *seed, nan_ok: true, meta: Default::default(), finalize: true, clear_limits: 0 })],
+                    ops: vec![Op::Ext { prefix: PREFIX.into(), url: URI.into() }, Op::Cloud(prog::CloudSpec { guid: "{c}".into(), proto, n: *n, seed: *seed, nan_ok: true, meta: Default::default(), finalize: true, clear_limits: 0, rejects: vec![] })],
                     end: End::Finalize,
                 };
                 let dev = MemDev::new();
